@@ -248,6 +248,13 @@ def gen_case(rng, stream=None):
         tree = {k: tree[k] for k in keys}
     case["tree"] = tree
     choose_form(rng, case, tree)
+    if stream == "exact" and len(case["fixed"]) >= 2 and rng.random() < 0.4:
+        sizes, left = [], len(case["fixed"])
+        while left > 0:
+            g = min(left, rng.choice([1, 2, 2, 3]))
+            sizes.append(g)
+            left -= g
+        case["fixedgroups"] = sizes
     # history: the same netlist object / the same description used before, in the same process
     if rng.random() < 0.2:
         case["warm"] = rng.choice(["twice", "twice", "no-netlist-first", "bare-first"])
@@ -576,7 +583,12 @@ def build_netlist(case):
     from frame.netlist.netlist import Netlist
     if not case["fixed"] and not case.get("hard"):
         return None
-    mods = {f"M{i}": {"fixed": True, "rectangles": [py_value(r)]} for i, r in enumerate(case["fixed"])}
+    groups, rest = [], list(case["fixed"])
+    for g in case.get("fixedgroups") or []:                  # fixed modules with several rectangles
+        groups.append(rest[:g])
+        rest = rest[g:]
+    groups += [[r] for r in rest]
+    mods = {f"M{i}": {"fixed": True, "rectangles": [py_value(r) for r in g]} for i, g in enumerate(groups) if g}
     for i, r in enumerate(case.get("hard") or []):
         mods[f"H{i}"] = ({"hard": True, "rectangles": [py_value(r[:4])]} if r[4] == "hard"
                          else {"area": float(r[2] * r[3]), "rectangles": [py_value(r[:4])]})
@@ -946,7 +958,9 @@ def shrink(case):
                 t.pop("regions")
             yield dict(case, tree=t, form="dict" if case["form"] == "single" else case["form"])
     for i in range(len(case["fixed"])):
-        yield dict(case, fixed=case["fixed"][:i] + case["fixed"][i + 1:])
+        yield dict(case, fixed=case["fixed"][:i] + case["fixed"][i + 1:], fixedgroups=None)
+    if case.get("warm"):
+        yield dict(case, warm=None)
     if case.get("hard"):
         yield dict(case, hard=[])
     if case["form"] in ("text", "file", "stream") and not case.get("textdefect") and case["render"]["style"] != "block":
@@ -975,7 +989,7 @@ def run_oracle_only(ctx, out):
 
 
 def run(ctx, out, replay=None):
-    n = 4000 if ctx.quick() else 30000
+    n = 3500 if ctx.quick() else 30000
     out.rule = ("dies with 0-8 lattice-aligned regions (blockages, identifiers, fixed rectangles through a generated netlist) "
                 "on a coarse nx x ny lattice (1..6 each, narrow columns for near-misses; patterns random / pinwheel ring with "
                 "enclosed hole / T-junction / fully covered); streams exact (dyadic), exact-eps (explicit epsilon 2^-10, sides "
